@@ -2005,6 +2005,28 @@ theorem hk_attempts_ok (s : Sys F) (now j : Nat) (l : FLink F) (hl : s.links[j]?
 
 /-! ## 11. All events -/
 
+/-- The verdict stamp of the event loop, per index. -/
+def stampOne (idx : Nat) (weak ld ccb : Bool) (cct : Nat) (j : Nat) (l : FLink F) : FLink F :=
+  if j = idx then { l with weak := weak, lossDegraded := ld, ccBackingOff := ccb, ccTarget := cct } else l
+
+theorem stampLink_get (ls : List (FLink F)) (idx : Nat) (weak ld ccb : Bool) (cct : Nat) (j : Nat) :
+    (stampLink ls idx weak ld ccb cct)[j]? = (ls[j]?).map (stampOne idx weak ld ccb cct j) := by
+  unfold stampLink
+  rw [List.getElem?_mapIdx]
+  rfl
+
+theorem stampLink_length (ls : List (FLink F)) (idx : Nat) (weak ld ccb : Bool) (cct : Nat) :
+    (stampLink ls idx weak ld ccb cct).length = ls.length := by
+  unfold stampLink; exact List.length_mapIdx
+
+/-- A verdict stamp touches neither the accounting core nor the queue nor the reconnection state. -/
+theorem ev_stampOne (hc : Bool) (cto : Option Nat) (idx : Nat) (weak ld ccb : Bool) (cct : Nat) (j : Nat)
+    (l : FLink F) : Evolves hc cto l (stampOne idx weak ld ccb cct j l) := by
+  unfold stampOne
+  split
+  · exact Evolves.of_soft rfl rfl rfl rfl rfl rfl
+  · exact Evolves.refl _ _ _
+
 /-- What one event does to link `j`. -/
 inductive LinkStep (s : Sys F) (e : Ev) (j : Nat) (l l' : FLink F) : Prop
   /-- anything that is not a tear-down / attempt / REG3; the timeout copy may be refreshed by a
@@ -2074,6 +2096,11 @@ theorem step_link (s : Sys F) (e : Ev) :
   | crit d => exact ⟨hsame _ rfl, rfl, fun h => h⟩
   | failNext cid => exact ⟨hsame _ rfl, rfl, fun h => h⟩
   | failBind cid => exact ⟨hsame _ rfl, rfl, fun h => h⟩
+  | stamp idx weak ld ccb cct =>
+    refine ⟨fun j l hl => ?_, stampLink_length _ _ _ _ _ _, fun h => h⟩
+    refine ⟨stampOne idx weak ld ccb cct j l, ?_, .evolves none (Or.inl rfl) (ev_stampOne _ _ _ _ _ _ _ _ _)⟩
+    show (stampLink s.links idx weak ld ccb cct)[j]? = _
+    rw [stampLink_get, hl]; rfl
 
 /-! ## 12. Extras: REG2 on the wire, accounting of live links, REG_ERR recognition -/
 
